@@ -4,6 +4,7 @@ import (
 	"bytes"
 	"context"
 	"fmt"
+	"os"
 	"strings"
 	"sync"
 	"testing"
@@ -228,7 +229,11 @@ func TestC04(t *testing.T) {
 	run.Sample(map[string]any{"inputs": names, "programs": len(progs), "encodings": len(encs), "example_encoding": encs[len(encs)/2].name, "example_program": progs[len(progs)/3].src})
 	run.Set("exhaustive", true)
 	run.Set("rule", "programs: 16 filter/search atoms (keyword, quoted, globs, field==literal, literal in field, regexp, grep, numeric/ip/cidr comparisons, has, ==null), their and/or/not combinations (every fifth pair), type functions (typeof, len, is, under, nameof, fields, kind), shaping (cut, put, shape, fuse) and aggregations; inputs: 8 curated sequences in which the searched token occurs as a value, only as a field name, only inside array/map/union-wrapped records, only in a type value, only in a named type, plus numeric/null, ip/net and mixed-shape inputs; encodings: in-memory reference (zbuf.Array), ZSON, ZJSON, VNG, and ZNG with compress x frame threshold {1,64,default} x end-of-stream between values x threads {1,2} x read size {default,1}. Each program's output on each encoding must equal its output on the in-memory reference (sequence for order-preserving programs, multiset for aggregations)")
-	run.Assume("the adversarial buffer pool (poison and immediately reuse released frame buffers) needs source instrumentation and is not part of this run; recycling happens through the real sync.Pool with frame threshold 1")
+	if os.Getenv("VERIF_POISON") == "1" {
+		run.Set("adversarial_buffer_pool", "zngio frame buffers are overwritten with 0xdb when released (build overlay of zio/zngio/buffer.go generated from the working tree)")
+	} else {
+		run.Assume("the adversarial buffer pool overlay could not be applied to this tree's zio/zngio/buffer.go; recycling happens only through the real sync.Pool")
+	}
 }
 
 func c04Shape(src string) string {
